@@ -105,4 +105,13 @@ impl TopicAliasRecv {
     pub fn max(&self) -> TopicAliasType {
         self.max_alias
     }
+
+    /// (alias, topic) pairs sorted by alias (verification hook, read-only)
+    #[cfg(feature = "verif-hooks")]
+    pub fn verif_entries(&self) -> alloc::vec::Vec<(TopicAliasType, String)> {
+        let mut v: alloc::vec::Vec<(TopicAliasType, String)> =
+            self.aliases.iter().map(|(a, t)| (*a, t.clone())).collect();
+        v.sort();
+        v
+    }
 }
